@@ -106,8 +106,8 @@ func c16Message(w, i int, m c16Msg) storage.Message {
 
 type c16WriterSpec struct {
 	File, Lock string
-	W         int
-	Msgs      []c16Msg
+	W          int
+	Msgs       []c16Msg
 }
 
 func c16RunWriter(spec c16WriterSpec) error {
